@@ -1,7 +1,7 @@
 package main
 
 var authDeviations = []string{"cd.type", "cd.challenge", "cd.origin", "cd.malformed", "ad.rpIdHash", "ad.noUP", "ad.noUV", "sig.otherKey", "sig.otherMessage",
-	"sig.authDataOnly", "sig.bitflip", "sig.empty", "tamper.authData", "tamper.cdj", "id.unknown", "userHandle.foreign", "userHandle.missing", "userHandle.empty", "allow.excludes"}
+	"sig.authDataOnly", "sig.bitflip", "sig.empty", "tamper.authData", "tamper.cdj", "id.unknown", "userHandle.foreign", "userHandle.missing", "userHandle.empty", "userHandle.lengthVariant", "cd.challengeLengthVariant", "allow.excludes", "allow.lengthVariant"}
 
 func authCase(c *Ctx, stream string, alg int, devs ...string) {
 	authCaseVar(c, stream, alg, -1, 0, devs...)
